@@ -75,11 +75,13 @@ def _loop_tolerant_cabs():
         """CAbs that steps over a loop inside the analysed block: every variable the loop assigns becomes unknown, its calls are not recorded.
         What a copy loop does to the output is decided by C12-EXTENT; C12-BITS keeps deciding the fields (branch, consumed bytes, offset, length)."""
         loops = 0
+        returned_early = False
 
         def clone(self):
             c = cabs.CAbs.clone(self)
             c.__class__ = LoopTolerant
             c.loops = self.loops
+            c.returned_early = self.returned_early
             return c
 
         def skip_loop(self, s):
@@ -99,8 +101,13 @@ def _loop_tolerant_cabs():
         def _seq(self, stmts):
             for i, s in enumerate(stmts):
                 k = s.get('kind')
-                if k in ('IfStmt', 'CompoundStmt', 'ReturnStmt'):
+                if k in ('IfStmt', 'CompoundStmt'):
                     break       # the base class flattens / forks these and calls _seq again with the rest of the list: the loop is found there
+                if k == 'ReturnStmt':
+                    outs = cabs.CAbs._seq(self, stmts[:i]) if i else [self]
+                    for cur in outs:
+                        cur.returned_early = True       # the step leaves the decoder from inside the analysed block (an error exit)
+                    return outs
                 if k in ('WhileStmt', 'ForStmt', 'DoStmt'):
                     outs = []
                     for cur in (cabs.CAbs._seq(self, stmts[:i]) if i else [self]):      # simple statements only: one state
@@ -226,6 +233,8 @@ def lzss_rules(ctx):
                     r.violate(key + ':consumed', rel_c, decl[0].line, 'literal token: encoder emits %d byte(s), decoder consumes %d' % (len(out), dec.consumed))
             continue
         finals = dec0.run_all(ref_block)
+        # a path that returns from inside the back-reference block is an error exit; that the compressor's streams never take it is decided by C12-EXTENT (clauses advance / stop)
+        finals = [d for d in finals if not d.returned_early] or finals
         forked_on_input = [d for d in finals if any(len(t) > 2 and t[2] for t in d.trace)]
         for dec in finals:
             _check_backref(r, s2, dec, out, form, key, rel_c, decl, ref_block, params, ln, offend, c_walk, c_strip, c_name)
